@@ -91,12 +91,35 @@ func (g *gen) numArgs(n int) []Expr {
 	switch g.ch(8) {
 	case 0:
 		m = n + 1
+	case 1:
+		if n > 0 && g.ch(2) == 0 {
+			m = n - 1 // the omitted parameter is nil
+			g.use("fewer_arguments")
+		}
 	}
 	var out []Expr
 	for i := 0; i < m; i++ {
 		out = append(out, g.numExpr(1))
 	}
 	return out
+}
+
+// goCallee returns the expression through which a builtin or host function is called: usually its name, sometimes
+// an index expression that gives the call site no static function name (t[1](...), t[k](...)).
+func (g *gen) goCallee(name string, pre *[]Stmt) Expr {
+	if !g.feat("fieldcall") || g.ch(5) != 0 {
+		return Var{name}
+	}
+	g.use("anonymous_go_callee")
+	tb := g.fresh("ft")
+	if g.ch(2) == 0 {
+		*pre = append(*pre, &Local{Names: []string{tb}, Exprs: []Expr{TableCons{Arr: []Expr{Var{name}}}}})
+		return Index{Var{tb}, Num{1}}
+	}
+	k := g.fresh("fk")
+	*pre = append(*pre, &Local{Names: []string{tb, k}, Exprs: []Expr{TableCons{}, Str{"k"}}},
+		&Assign{Targets: []Expr{Index{Var{tb}, Var{k}}}, Exprs: []Expr{Var{name}}})
+	return Index{Var{tb}, Var{k}}
 }
 
 func (g *gen) sFunc(fc *fctx) []Stmt {
@@ -359,6 +382,9 @@ func (g *gen) sPcall(fc *fctx, x bool) []Stmt {
 	if x && g.feat("closure") && g.ch(6) == 0 {
 		return g.sXpcallEscape(fc)
 	}
+	if !x && g.feat("closure") && g.feat("error") && g.ch(8) == 0 {
+		return g.sRetry(fc)
+	}
 	var out []Stmt
 	var fname string
 	var sig *fnSig
@@ -396,19 +422,21 @@ func (g *gen) sPcall(fc *fctx, x bool) []Stmt {
 		}
 		hbody = append(hbody, &Return{Exprs: []Expr{hret}})
 		hd := &FuncDef{ID: g.prog.NFuncs, Params: []string{ep}, Body: hbody}
+		xcallee := g.goCallee("xpcall", &out)
 		out = append(out,
 			&Call{Names: []string{d0}, Fn: Var{"luadepth"}},
 			&Local{Names: []string{hn}, Exprs: []Expr{Func{hd}}},
 			&Call{Names: []string{sv}, Fn: Var{"snap"}},
-			&Call{Names: []string{ok, a, b}, Fn: Var{"xpcall"}, Args: []Expr{Var{fname}, Var{hn}}},
+			&Call{Names: []string{ok, a, b}, Fn: xcallee, Args: []Expr{Var{fname}, Var{hn}}},
 			&Call{Fn: Var{"snap"}, Args: []Expr{Var{sv}}},
 			g.emitVars("xp", ok, a, b))
 	} else {
 		g.use("pcall")
 		args := append([]Expr{Var{fname}}, g.numArgs(sig.nparams)...)
+		callee := g.goCallee("pcall", &out)
 		out = append(out,
 			&Call{Names: []string{sv}, Fn: Var{"snap"}},
-			&Call{Names: []string{ok, a, b}, Fn: Var{"pcall"}, Args: args},
+			&Call{Names: []string{ok, a, b}, Fn: callee, Args: args},
 			&Call{Fn: Var{"snap"}, Args: []Expr{Var{sv}}},
 			g.emitVars("pc", ok, a, b))
 	}
@@ -508,14 +536,18 @@ func (g *gen) sHost(fc *fctx) []Stmt {
 		ok, a := g.fresh("ok"), g.fresh("ra")
 		sv := g.fresh("sn")
 		g.declare(&varInfo{name: ok, k: kBool, fnLevel: fc.level})
-		return []Stmt{&Call{Names: []string{sv}, Fn: Var{"snap"}},
-			&Call{Names: []string{ok, a}, Fn: Var{"hostpcall"}, Args: args},
+		var pre []Stmt
+		callee := g.goCallee("hostpcall", &pre)
+		return append(pre, &Call{Names: []string{sv}, Fn: Var{"snap"}},
+			&Call{Names: []string{ok, a}, Fn: callee, Args: args},
 			&Call{Fn: Var{"snap"}, Args: []Expr{Var{sv}}},
-			g.emitVars("hp", ok, a)}
+			g.emitVars("hp", ok, a))
 	}
 	g.use("hostcall")
 	a, b := g.fresh("ra"), g.fresh("rb")
-	return []Stmt{&Call{Names: []string{a, b}, Fn: Var{"hostcall"}, Args: args}, g.emitVars("hc", a, b)}
+	var pre []Stmt
+	callee := g.goCallee("hostcall", &pre)
+	return append(pre, &Call{Names: []string{a, b}, Fn: callee, Args: args}, g.emitVars("hc", a, b))
 }
 
 func (g *gen) sMeta(fc *fctx) []Stmt {
@@ -947,12 +979,130 @@ func (g *gen) yieldStmt(fc *fctx) []Stmt {
 	return out
 }
 
+// sRetry: the same function is called again at the same stack depth after a protected call of it failed while
+// closures over its locals were open (a retry loop). The second activation must get fresh variables, shared with
+// its own closures only; a closure that escaped from the failed activation keeps its own. In one case in two the
+// whole thing runs inside a fresh coroutine, where nothing else holds an open upvalue.
+func (g *gen) sRetry(fc *fctx) []Stmt {
+	g.use("retry_same_registers")
+	g.cost(60)
+	at, fl, gesc := g.fresh("at"), g.fresh("fl"), g.fresh("GR")
+	nc := 1 + g.ch(3)
+	var body []Stmt
+	var cs, fs []string
+	for i := 0; i < nc; i++ {
+		c, f := g.fresh("rc"), g.fresh("rb")
+		cs, fs = append(cs, c), append(fs, f)
+		g.prog.NFuncs++
+		body = append(body, &Local{Names: []string{c}, Exprs: []Expr{Num{float64(g.ch(5))}}},
+			&Local{Names: []string{f}, Exprs: []Expr{Func{&FuncDef{ID: g.prog.NFuncs, Body: []Stmt{
+				&Assign{Targets: []Expr{Var{c}}, Exprs: []Expr{Bin{"+", Var{c}, Num{1}}}}, &Return{Exprs: []Expr{Var{c}}}}}}}})
+	}
+	for _, f := range fs {
+		body = append(body, &Call{Fn: Var{f}})
+	}
+	var failing Stmt = &Call{Fn: Var{"error"}, Args: []Expr{Str{"boom"}}}
+	if g.feat("hostcall") && g.ch(3) == 0 {
+		failing = &Call{Fn: Var{"error"}, Args: []Expr{TableCons{}}}
+	}
+	body = append(body, &If{Conds: []Expr{Var{fl}}, Blocks: [][]Stmt{{
+		&Assign{Targets: []Expr{Var{gesc}}, Exprs: []Expr{Var{fs[g.ch(nc)]}}}, failing}}})
+	for _, f := range fs {
+		body = append(body, &Call{Fn: Var{f}})
+	}
+	var sum Expr = Var{cs[0]}
+	for _, c := range cs[1:] {
+		sum = Bin{"+", Bin{"*", sum, Num{10}}, Var{c}}
+	}
+	body = append(body, &Return{Exprs: []Expr{sum}})
+	g.prog.NFuncs++
+	inner := []Stmt{&Local{Names: []string{at}, Exprs: []Expr{Func{&FuncDef{ID: g.prog.NFuncs, Params: []string{fl}, Body: body}}}}}
+	n := 2 + g.ch(2)
+	for i := 0; i < n; i++ {
+		var flag Expr = False{}
+		if i == 0 || g.ch(3) == 0 {
+			flag = True{}
+		}
+		ok, r := g.fresh("ok"), g.fresh("rr")
+		inner = append(inner, &Call{Names: []string{ok, r}, Fn: Var{"pcall"}, Args: []Expr{Var{at}, flag}},
+			&Call{Fn: Var{"emit"}, Args: []Expr{Str{"rt"}, Var{ok}, Bin{"and", Var{ok}, Var{r}}}})
+	}
+	ge := g.fresh("ge")
+	inner = append(inner, &Call{Names: []string{ge}, Fn: Var{gesc}}, &Call{Fn: Var{"emit"}, Args: []Expr{Str{"rg"}, Var{ge}}})
+	if !g.feat("coroutine") || g.ch(2) == 0 {
+		return []Stmt{&Do{Body: inner}}
+	}
+	g.use("retry_in_fresh_coroutine")
+	cf, co, ok, e := g.fresh("cf"), g.fresh("co"), g.fresh("ok"), g.fresh("ce")
+	g.prog.NFuncs++
+	return []Stmt{&Local{Names: []string{cf}, Exprs: []Expr{Func{&FuncDef{ID: g.prog.NFuncs, Body: inner}}}},
+		&Call{Names: []string{co}, Fn: Var{"cocreate"}, Args: []Expr{Var{cf}}},
+		&Call{Names: []string{ok, e}, Fn: Var{"coresume"}, Args: []Expr{Var{co}}},
+		&Call{Fn: Var{"emit"}, Args: []Expr{Str{"rco"}, Var{ok}, Var{e}}}}
+}
+
+// sThreeGen: three generations of coroutines by creation (A creates B, B creates C); C escapes through a global
+// and is resumed from outside while A is suspended, and again after A and B are dead. A coroutine's life is
+// independent of its creator's.
+func (g *gen) sThreeGen(fc *fctx) []Stmt {
+	g.use("three_generations")
+	g.cost(80)
+	gc := g.fresh("GC")
+	fa, fb, fcn, a, b := g.fresh("fa"), g.fresh("fb"), g.fresh("fc"), g.fresh("ca"), g.fresh("cb")
+	p, y1, y2 := g.fresh("p"), g.fresh("y"), g.fresh("y")
+	nf := func(params []string, body ...Stmt) Func {
+		g.prog.NFuncs++
+		return Func{&FuncDef{ID: g.prog.NFuncs, Params: params, Body: body}}
+	}
+	emit := func(tag string, names ...string) Stmt { return g.emitVars(tag, names...) }
+	cBody := nf([]string{p},
+		&Call{Names: []string{y1}, Fn: Var{"coyield"}, Args: []Expr{Bin{"+", Var{p}, Num{1}}}}, emit("c1", y1),
+		&Call{Names: []string{y2}, Fn: Var{"coyield"}, Args: []Expr{Bin{"+", Var{y1}, Num{1}}}}, emit("c2", y2),
+		&Return{Exprs: []Expr{Bin{"+", Var{y2}, Num{1}}}})
+	okb, rb := g.fresh("ok"), g.fresh("r")
+	bStmts := []Stmt{&Local{Names: []string{fcn}, Exprs: []Expr{cBody}},
+		&Call{Targets: []Expr{Var{gc}}, Fn: Var{"cocreate"}, Args: []Expr{Var{fcn}}},
+		&Call{Names: []string{okb, rb}, Fn: Var{"coresume"}, Args: []Expr{Var{gc}, Num{float64(g.ch(9))}}}, emit("b", okb, rb)}
+	bYields := g.ch(2) == 0
+	if bYields {
+		bStmts = append(bStmts, &Call{Fn: Var{"coyield"}, Args: []Expr{Num{7}}})
+	}
+	oka, ra := g.fresh("ok"), g.fresh("r")
+	aStmts := []Stmt{&Local{Names: []string{fb}, Exprs: []Expr{nf(nil, bStmts...)}},
+		&Call{Names: []string{b}, Fn: Var{"cocreate"}, Args: []Expr{Var{fb}}},
+		&Call{Names: []string{oka, ra}, Fn: Var{"coresume"}, Args: []Expr{Var{b}}}, emit("a", oka, ra)}
+	aYields := g.ch(2) == 0
+	if aYields {
+		aStmts = append(aStmts, &Call{Fn: Var{"coyield"}, Args: []Expr{Num{8}}})
+	}
+	if bYields && g.ch(2) == 0 {
+		// A lets B finish before it ends itself
+		ok2 := g.fresh("ok")
+		aStmts = append(aStmts, &Call{Names: []string{ok2}, Fn: Var{"coresume"}, Args: []Expr{Var{b}}}, emit("a2", ok2))
+	}
+	ok1, r1, ok2, r2, ok3, r3, st := g.fresh("ok"), g.fresh("r"), g.fresh("ok"), g.fresh("r"), g.fresh("ok"), g.fresh("r"), g.fresh("st")
+	out := []Stmt{&Local{Names: []string{fa}, Exprs: []Expr{nf(nil, aStmts...)}},
+		&Call{Names: []string{a}, Fn: Var{"cocreate"}, Args: []Expr{Var{fa}}},
+		&Call{Names: []string{ok1, r1}, Fn: Var{"coresume"}, Args: []Expr{Var{a}}}, emit("m1", ok1, r1),
+		&Call{Names: []string{ok2, r2}, Fn: Var{"coresume"}, Args: []Expr{Var{gc}, Num{10}}}, emit("m2", ok2, r2)}
+	if aYields {
+		ok4 := g.fresh("ok")
+		out = append(out, &Call{Names: []string{ok4}, Fn: Var{"coresume"}, Args: []Expr{Var{a}}}, emit("m3", ok4))
+	}
+	out = append(out, &Call{Names: []string{ok3, r3}, Fn: Var{"coresume"}, Args: []Expr{Var{gc}, Num{20}}},
+		&Call{Names: []string{st}, Fn: Var{"costatus"}, Args: []Expr{Var{gc}}}, emit("m4", ok3, r3, st))
+	return []Stmt{&Do{Body: out}}
+}
+
 func (g *gen) sCo(fc *fctx) []Stmt {
 	// inside a coroutine body a plain yield is also a "co" statement
 	if fc.canYield && !fc.inCallback && g.ch(3) == 0 {
 		return g.yieldStmt(fc)
 	}
 	g.use("coroutine")
+	if g.ch(14) == 0 {
+		return g.sThreeGen(fc)
+	}
 	if g.ch(10) == 0 {
 		// a coroutine whose body is a builtin or a host function
 		g.use("coroutine_over_go_function")
